@@ -450,6 +450,42 @@ def check(ctx):
                    f"{look.qual}({kind.name}) on a reminder list with {label.replace('-', ' ')} {why}: the lookup must give the reminder of that kind, or None when the spa reports none - never raise", look.loc,
                    sample={"rule": "R6", "lookup": kind.name, "list": label} if kind is kinds[0] else None)
     ctx.floor("R6", "reminder lookups interpreted", n_look, 15)
+    # ---- R9 error text: the error sensor built by its own constructor over real Bool accessors on a model structure,
+    # for every valuation of three error flags (and a non-Bool item among the error keys)
+    ctx.rule("R9", "error text is total and names the active flags: GeckoErrorSensor built by its constructor on a model structure whose error keys are three real Bool items and one Enum item - for all 8 valuations of the flags its state evaluates, is 'None' exactly when no flag is set, and otherwise names every set flag once")
+    from ..facademodel import Rec as _R2, model_facade as _mf2
+    es = repo.cls("GeckoErrorSensor")
+    n_es = 0
+    for bits in range(8):
+        it9 = Interp(repo, max_depth=12)
+        blockb = bytearray(32)
+        blockb[5] = bits
+        st9 = Obj(None, {"status_block": bytes(blockb), "accessors": {}, "error_keys": ["ErrA", "ErrMode", "ErrB", "ErrC"]}, name="struct")
+        try:
+            accs9 = {"Other": it9.apply(ClassRef(repo.cls("GeckoBoolStructAccessor")), [st9, "Other", 6, 0, None], {}),
+                     "ErrA": it9.apply(ClassRef(repo.cls("GeckoBoolStructAccessor")), [st9, "ErrA", 5, 0, None], {}),
+                     "ErrMode": it9.apply(ClassRef(repo.cls("GeckoEnumStructAccessor")), [st9, "ErrMode", 7, 0, ["X", "Y"], None, 2, None], {}),
+                     "ErrB": it9.apply(ClassRef(repo.cls("GeckoBoolStructAccessor")), [st9, "ErrB", 5, 1, None], {}),
+                     "ErrC": it9.apply(ClassRef(repo.cls("GeckoBoolStructAccessor")), [st9, "ErrC", 5, 2, None], {})}
+            st9.attrs["accessors"] = accs9
+            fac9, spa9 = _mf2(_R2(), accs9, struct=st9)
+            it9.steps = 0
+            sensor = it9.apply(ClassRef(es), [fac9], {})
+            got9 = it9.getattr(sensor, "state")
+        except PyRaise as e:
+            got9 = f"raises {e.what}"
+        except Undecided as e:
+            raise AnalysisError(f"GeckoErrorSensor on the model structure: {e}")
+        active = [nm for i, nm in enumerate(("ErrA", "ErrB", "ErrC")) if bits >> i & 1]
+        if not active:
+            ok9 = got9 == "None"
+        else:
+            ok9 = isinstance(got9, str) and not got9.startswith("raises") and sorted(x.strip() for x in got9.split(",")) == sorted(active)
+        n_es += 1
+        ctx.ob("R9", f"GeckoErrorSensor::flags={bits:03b}", ok9,
+               f"GeckoErrorSensor over error flags ErrA/ErrB/ErrC = {bits & 1}/{bits >> 1 & 1}/{bits >> 2 & 1}: state {got9!r}, expected {'None' if not active else 'the text naming ' + ', '.join(active)}",
+               repo.method("GeckoErrorSensor", "update_state").loc, sample={"rule": "R9", "flags": bits, "state": str(got9)} if bits in (0, 3) else None)
+    ctx.floor("R9", "error-flag valuations", n_es, 8)
     # ---- R8 heater members are total: an out-of-label unit byte reads 'Unknown' (R4) and every read-only member of the
     # heater, built by its own constructor on a model spa, must still evaluate (with / without the flag items)
     ctx.rule("R8", "heater totality: with the unit item reading 'C', 'F' or 'Unknown' (any out-of-label byte) and every presence pattern of the heating / cooling flag items, every read-only member of GeckoWaterHeater evaluates without raising")
